@@ -192,6 +192,31 @@ def run(built):
         return ("exc", type(exc).__name__, str(exc)[:300])
 
 
+def match_flip(rule_path: str, input_path: str, combos, *, binary=False, macros=None):
+    """ONE MasterOfPuppets object asked under several (ret, search, only_addr) combinations in turn by re-setting the attributes of its
+    match_config between the calls. Returns ("ok", [value per combo]) or ("exc", ...)."""
+    try:
+        ret0, search0, oa0 = combos[0]
+        cfg = gd.MatchConfig(
+            pattern_pathstr=rule_path, input_file=input_path,
+            input_file_type=gd.InputFileType.binary if binary else gd.InputFileType.assembly,
+            return_only_address=oa0, return_mode=getattr(gd.MatchingReturnMode, RETURN[ret0]),
+            matching_mode=getattr(gd.MatchingSearchMode, SEARCH[search0]), macros=macros)
+        mop = jm.MasterOfPuppets(cfg)
+        out = []
+        for ret, search, oa in combos:
+            mop.match_config.return_mode = getattr(gd.MatchingReturnMode, RETURN[ret])
+            mop.match_config.matching_mode = getattr(gd.MatchingSearchMode, SEARCH[search])
+            mop.match_config.return_only_address = oa
+            v = mop.perform_matching()
+            out.append(list(v) if isinstance(v, list) else v)
+        return ("ok", out)
+    except BaseException as exc:  # noqa: BLE001
+        if isinstance(exc, (KeyboardInterrupt, SystemExit, MemoryError)):
+            raise
+        return ("exc", type(exc).__name__, str(exc)[:300])
+
+
 def match_sequence(rule_path: str, inputs: List[str], *, binary=False, ret="list", search="all", only_addr=False, macros=None):
     """ONE MasterOfPuppets object used on several inputs in turn (match_config.input_file is re-pointed between the calls).
     Returns ("ok", [result per input]) or ("exc", ...)."""
@@ -214,10 +239,23 @@ def match_sequence(rule_path: str, inputs: List[str], *, binary=False, ret="list
         return ("exc", type(exc).__name__, str(exc)[:300])
 
 
-def compile_rule(rule_path: str, macros: Optional[List[str]] = None):
+def compile_rule(rule_path: str, macros: Optional[List[str]] = None, full_message=False):
     try:
         return ("ok", y2r.Yaml2Regex(rule_path, macros_from_terminal=macros).produce_regex())
     except BaseException as exc:  # noqa: BLE001
         if isinstance(exc, (KeyboardInterrupt, SystemExit, MemoryError)):
             raise
-        return ("exc", type(exc).__name__, str(exc)[:300])
+        return ("exc", type(exc).__name__, str(exc) if full_message else str(exc)[:300])
+
+
+def build_error(rule_path: str, input_path: str, macros: Optional[List[str]] = None):
+    """The error message a caller of MasterOfPuppets(...) sees for a rule that does not compile (full text), or None."""
+    try:
+        cfg = gd.MatchConfig(pattern_pathstr=rule_path, input_file=input_path, input_file_type=gd.InputFileType.assembly,
+                             return_only_address=False, return_mode=gd.MatchingReturnMode.bool, matching_mode=gd.MatchingSearchMode.first_find, macros=macros)
+        jm.MasterOfPuppets(cfg)
+        return None
+    except BaseException as exc:  # noqa: BLE001
+        if isinstance(exc, (KeyboardInterrupt, SystemExit, MemoryError)):
+            raise
+        return type(exc).__name__, str(exc)
